@@ -622,6 +622,9 @@ def _node_representer(dumper, node):
                     assert tag.startswith('!null')
                     with dumper.force_unquoted():
                         return dumper.represent_scalar(tag, '', style='')
+                if isinstance(data, ConfigScalar) and isinstance(data, str):
+                    # repr() of a string is Python quoting, not YAML quoting (escapes, mixed quotes): let the emitter quote it
+                    return dumper.represent_scalar(tag, data._dyn_base(data), style='"')
                 with dumper.force_unquoted():
                     if isinstance(data, ConfigScalar):
                         return dumper.represent_scalar(tag, repr(data._dyn_base(data)))
